@@ -55,6 +55,60 @@ def log(*a):
 # ----------------------------------------------------------------------------
 # scratch build of the implementation
 # ----------------------------------------------------------------------------
+
+# ------------------------------------------------------------------------------------------------------------------
+# source fingerprint: the quick tier was calibrated (case counts, generators) on one particular tree.  When the
+# source a check is run against differs from that baseline in more than comments / docstrings / blank lines, the quick
+# tier runs with the generators of the thorough tier ("escalation"): a changed tree is exactly where sampling the
+# model<->code tie more densely pays.  The baseline is committed (harness/source_baseline.json, written by
+# tools/gen_baseline.py from /repo's HEAD) and is never written at run time.  Nothing is ever *reported* because of a
+# fingerprint mismatch; it only selects how much is explored.
+def _norm_source(path):
+    import ast
+    import hashlib
+    with open(path, "rb") as f:
+        raw = f.read()
+    if path.endswith(".py"):
+        try:
+            tree = ast.parse(raw.decode("utf-8"))
+            for node in ast.walk(tree):
+                body = getattr(node, "body", None)
+                if (isinstance(node, (ast.Module, ast.FunctionDef, ast.ClassDef, ast.AsyncFunctionDef)) and body
+                        and isinstance(body[0], ast.Expr) and isinstance(getattr(body[0], "value", None), ast.Constant)
+                        and isinstance(body[0].value.value, str)):
+                    body[0].value.value = ""
+            data = ast.dump(tree, annotate_fields=False).encode()
+        except Exception:
+            data = raw
+    else:
+        lines = []
+        for ln in raw.decode("utf-8", "replace").splitlines():
+            ln = ln.split("#", 1)[0].rstrip()
+            if ln:
+                lines.append(ln)
+        data = "\n".join(lines).encode()
+    return hashlib.sha256(data).hexdigest()
+
+
+def source_fingerprint(pkg_dir):
+    fp = {}
+    for name in sorted(os.listdir(pkg_dir)):
+        if name.endswith((".py", ".pyx", ".pxd")):
+            fp[name] = _norm_source(os.path.join(pkg_dir, name))
+    return fp
+
+
+def source_changed(pkg_dir):
+    """Files of the tree under test whose normalised content differs from the committed baseline."""
+    try:
+        with open(os.path.join(VERIF, "harness", "source_baseline.json")) as f:
+            base = json.load(f)["files"]
+    except Exception:
+        return ["<no baseline>"]
+    cur = source_fingerprint(pkg_dir)
+    return sorted(k for k in set(base) | set(cur) if base.get(k) != cur.get(k))
+
+
 class Scratch:
     """A private copy of /repo's *working tree* with freshly compiled extensions."""
 
